@@ -109,6 +109,19 @@ CHECKS = {
                 "packets is read from the wire with an independent NPCI decoder.",
         "note": "renumbering onto a network number already in use is excluded; network-layer deletions are API calls (no message triggers them)",
     },
+    "C20": {
+        "level": "exploration",
+        "design_ref": "DESIGN.md 3 C20",
+        "technique": "runtime monitor: direct clause-12.24 interpreter + datetime/calendar as oracle on eval(), the matchers and timer-driven objects under a virtual clock",
+        "text": "The date matchers are compared with calendar arithmetic on every date of 20 sampled years (quick) / all "
+                "of 1900..2154 (thorough) for ~330 pattern/range/week-and-day shapes; random schedules are evaluated "
+                "by the real LocalScheduleInterpreter.eval at every minute of sampled days and at every listed time "
+                "+-1 min and compared with a direct interpreter, including the promise that the value cannot change "
+                "before the reported next transition; real LocalScheduleObjects run on their own timer under the "
+                "virtual clock for 2..10 days and presentValue is probed around every transition, midnight and the "
+                "edges of the effective period.",
+        "note": "TZ=UTC; time values with hundredths 0 only; same-priority overlapping exceptions and unsorted lists are not generated",
+    },
 }
 
 NOT_APPLICABLE = {pid: _PENDING for pid in ("C%02d" % i for i in range(1, 21)) if pid not in CHECKS}
